@@ -26,6 +26,7 @@ type c07EPCase struct {
 	Seed  int64 `json:"seed"`
 	UDP   bool  `json:"udp"`
 	Order []int `json:"order"` // user index of each successive session
+	NAT   bool  `json:"nat"`   // all clients share one source IP (different ports)
 	EP    bool  `json:"c07_endpoint"`
 }
 
@@ -44,6 +45,9 @@ func c07EndpointRun(c *core.Ctx, k c07EPCase) {
 		return
 	}
 	defer bgClose.Go(w.Close)
+	if k.NAT {
+		w.Net.ClientIP = net.IPv4(10, 9, 7, 7)
+	}
 	clients := make([]*protocol.Mux, len(users))
 	clients[0] = w.Client
 	for i := 1; i < len(users); i++ {
@@ -83,6 +87,12 @@ func c07EndpointRun(c *core.Ctx, k c07EPCase) {
 			}(conn)
 		}
 	}()
+	var open []net.Conn
+	defer func() {
+		for _, x := range open {
+			x.Close()
+		}
+	}()
 	for i, ui := range k.Order {
 		ctx, cancel := context.WithTimeout(context.Background(), 20*time.Second)
 		conn, err := clients[ui].DialContext(ctx)
@@ -95,7 +105,7 @@ func c07EndpointRun(c *core.Ctx, k c07EPCase) {
 		b := make([]byte, 1)
 		conn.SetReadDeadline(time.Now().Add(20 * time.Second))
 		_, rerr := io.ReadFull(conn, b)
-		conn.Close()
+		open = append(open, conn) // stays open: later datagrams from the same IP meet an existing session
 		mu.Lock()
 		name, ok := got[byte(i)]
 		mu.Unlock()
@@ -121,7 +131,7 @@ func init() {
 		n := c.N(6, 40)
 		cases := make([]c07EPCase, n)
 		for i := range cases {
-			k := c07EPCase{Seed: c.Rand.Int63(), UDP: i%2 == 1, EP: true}
+			k := c07EPCase{Seed: c.Rand.Int63(), UDP: i%2 == 1, EP: true, NAT: i%4 < 2}
 			for j := 0; j < 12; j++ {
 				k.Order = append(k.Order, c.Rand.Intn(5))
 			}
